@@ -386,7 +386,9 @@ static void run_dict(const json& c)
       last_table = d->table_size;
     }
     out["rs"] = rehashes;
-    if (not out.contains("c") && xbt_dict_length(d) <= static_cast<int>(DUMP_MAX))
+    // always dump after a removal by a key with an embedded NUL (the class of a known defect must be judged on the spot)
+    bool nul_removal = o == "remove" && op[1].get<std::string>().find('\0') != std::string::npos;
+    if (not out.contains("c") && (xbt_dict_length(d) <= static_cast<int>(DUMP_MAX) || nul_removal))
       out["c"] = dict_dump(d);
     out["f"] = take_freed();
     printf("%s\n", out.dump().c_str());
